@@ -192,15 +192,22 @@ def exec_chain(sources: list[str], modname: str, names: list[str], outer: str | 
     annotations; with two sources the second one imports the classes of the first, `@A@` stands for its name).
     Returns (list of projections, None) or (None, exception)."""
     mods = []
+    wildcard = len(sources) == 2 and "import *" in sources[1]
     try:
         scope: dict = {}
+        if wildcard:      # one package with two submodules
+            pkg = types.ModuleType(modname)
+            pkg.__path__ = []
+            sys.modules[modname] = pkg
+            mods.append(modname)
         for n, src in enumerate(sources):
-            name = modname + "ab"[n]
+            name = (modname + "." + "ab"[n]) if wildcard else modname + "ab"[n]
             mod = types.ModuleType(name)
             sys.modules[name] = mod
             mods.append(name)
+            first = (modname + ".a") if wildcard else modname + "a"
             try:
-                exec(compile(src.replace("@A@", modname + "a"), name + ".py", "exec", dont_inherit=True), mod.__dict__)  # noqa: S102
+                exec(compile(src.replace("@A@", first), name + ".py", "exec", dont_inherit=True), mod.__dict__)  # noqa: S102
             except TypeError as exc:
                 return None, exc
             scope.update(mod.__dict__[outer].__dict__ if outer else mod.__dict__)
@@ -257,7 +264,8 @@ def judge(case: dict, variant: int, src: str, greal, preal, perr, fixed=(), load
         return [("die", f"spec says CPython raises TypeError, it accepted the program\n{src}")]
     # -- Griffe must at least load the program
     base = {"tags": tags, "variant": variant, "wf": case["wf"], "load": load,
-            "outer": case.get("outer", "none"), "packages": 2 if case.get("split", 0) else 1}
+            "outer": case.get("outer", "none"),
+            "packages": 0 if not case.get("split", 0) else (1 if case.get("link") == "wildcard" else 2)}
     if isinstance(greal, BaseException):
         return [("viol", dict(base, clause="total", explained=False), f"static loading raised {greal!r} on\n{src}")]
     if not case["wf"]:
@@ -301,6 +309,16 @@ def _clear_cache():
         pass
 
 
+def second_header(header: str, imports_b: str) -> str:
+    """Header of the second module: the import of the first module's classes comes BEFORE the module's own imports (a
+    wildcard import also re-exports `dataclass`, `field`, ... of the first module; Griffe would then see the decorator
+    through that re-export chain - name resolution, not this property), but after a `from __future__` line."""
+    if header.startswith("from __future__"):
+        first, rest = header.split("\n", 1)
+        return first + "\n" + imports_b + rest
+    return imports_b + header
+
+
 def load_history(griffe, directory: str, modname: str, header: str, sources: list[str], nloads: int = 1, style: int = 0,
                  sources_b: list[str] | None = None, imports_b: str = "") -> list:
     """Write the module(s) and load them the way Dataclass.tla says.  One package: module `modname`; two packages
@@ -309,14 +327,26 @@ def load_history(griffe, directory: str, modname: str, header: str, sources: lis
     the first load live on; later loads alternate between `loader.load(...)` once more on the same loader and a new
     GriffeLoader built with `extensions=first.extensions` (style picks which comes first).
     Returns, per load, the pair (module object of the first package, module object of the second one or None)."""
-    names = [modname] if sources_b is None else [modname + "a", modname + "b"]
-    with open(os.path.join(directory, names[0] + ".py"), "w") as fh:
+    wildcard = sources_b is not None and "import *" in imports_b
+    if wildcard:     # ONE package <modname> with submodules a and b; b: `from <modname>.a import *`; one load event
+        os.makedirs(os.path.join(directory, modname))
+        files = [os.path.join(modname, "a.py"), os.path.join(modname, "b.py")]
+        names = [modname + ".a", modname + ".b"]
+        with open(os.path.join(directory, modname, "__init__.py"), "w") as fh:
+            fh.write("")
+    else:
+        names = [modname] if sources_b is None else [modname + "a", modname + "b"]
+        files = [n + ".py" for n in names]
+    with open(os.path.join(directory, files[0]), "w") as fh:
         fh.write(header + "\n" + "\n".join(sources))
     if sources_b is not None:
-        with open(os.path.join(directory, names[1] + ".py"), "w") as fh:
-            fh.write(header + imports_b.replace("@A@", names[0]) + "\n" + "\n".join(sources_b))
+        with open(os.path.join(directory, files[1]), "w") as fh:
+            fh.write(second_header(header, imports_b.replace("@A@", names[0])) + "\n" + "\n".join(sources_b))
 
     def both(loader):
+        if wildcard:
+            pkg = loader.load(modname)
+            return (pkg.members["a"], pkg.members["b"])
         a = loader.load(names[0])
         return (a, loader.load(names[1]) if sources_b is not None else None)
 
@@ -353,12 +383,13 @@ def replay_chunk(job) -> dict:
     events = []
     groups: dict = {}
     for idx, (case, variant) in enumerate(items):
-        groups.setdefault((variant, case.get("loads", 1), case.get("split", 0) > 0), []).append((idx, case))
+        two = (case.get("link", "import") if case.get("split", 0) > 0 else "")      # "" | "import" | "wildcard"
+        groups.setdefault((variant, case.get("loads", 1), two), []).append((idx, case))
     samples = []
     for (variant, nloads, two), group in groups.items():
         header = HEADERS[variant]
         style = (cid if isinstance(cid, int) else 0) % 2
-        modname = f"c18_{cid}_{variant}_{nloads}" + ("_s" if two else "")
+        modname = f"c18_{cid}_{variant}_{nloads}" + ("_" + two[0] if two else "")
         parts = {}       # idx -> (names, outer class name or None, source of package 1, source of package 2 or None)
         for idx, case in group:
             prefix = f"K{idx}"
@@ -371,6 +402,8 @@ def replay_chunk(job) -> dict:
                 parts[idx] = (names, f"O{prefix}" if outer else None, render_chain(case["chain"], variant, prefix, outer), None, [])
 
         def imports(idxs):
+            if two == "wildcard":
+                return "from @A@ import *\n"
             return "from @A@ import " + ", ".join(n for i in idxs for n in parts[i][4]) + "\n"
 
         def history(idxs, name):
@@ -384,7 +417,7 @@ def replay_chunk(job) -> dict:
         for idx, case in group:
             names, outer, src_a, src_b, _first = parts[idx]
             src = src_a if not two else src_a + "# ---- second package: " + imports([idx]) + src_b
-            sources = [header + "\n" + src_a] + ([header + imports([idx]) + "\n" + src_b] if two else [])
+            sources = [header + "\n" + src_a] + ([second_header(header, imports([idx])) + "\n" + src_b] if two else [])
             preal, perr = exec_chain(sources, f"c18x_{cid}_{variant}_{idx}", names, outer)
             try:
                 mods = gmods if gmods is not None else history([idx], f"c18s_{cid}_{variant}_{idx}")
@@ -405,7 +438,8 @@ def replay_chunk(job) -> dict:
                 for e in judge(case_at_load(case, n), variant, src, greal, preal, perr, fixed, n):
                     if e[0] != "ok":
                         events.append(({"chain": case["chain"], "variant": variant, "loads": nloads, "style": style,
-                                        "outer": case.get("outer", "none"), "split": case.get("split", 0)}, *e))
+                                        "outer": case.get("outer", "none"), "split": case.get("split", 0),
+                                        "link": case.get("link", "import")}, *e))
             if len(samples) < 2 and case["wf"] and len(case["chain"]) > 1 and not isinstance(greal, BaseException):
                 samples.append({"chain": case["chain"], "variant": variant, "loads": nloads, "source": src, "griffe": [strip(g) for g in greal]})
     return {"cid": cid, "n": len(items), "events": events, "samples": samples}
